@@ -210,6 +210,20 @@ CHECKS["C08"] = dict(
           "(its robust predicates read one element past an expansion without using it); uninitialised reads are only observable "
           "through the determinism comparison."),
     technique="Coq proof of index-range invariants of the modelled routines + sanitizer and determinism replays")
+CHECKS["C16"] = dict(
+    category="proof",
+    text=("24 Coq theorems over a model of the drawing editor (points, straight segments, block labels; 22 commands as the Lua "
+          "layer issues them), for every instantiation of the geometric predicates: every reachable drawing has all segments "
+          "joining two distinct existing points and no duplicate segment (all command sequences, with the repaired "
+          "deleteselectednodes; guarded / refuted variants for the former code and for the known findings), selection empty "
+          "after completed commands, per-command snap distance, delete renumbers consistently, copies at exactly the transformed "
+          "coordinates with their properties. The binary64 model reproduces the real FemmProblem state after every operation bit "
+          "for bit; an exact-rational oracle checks the PSLG invariants (incl. arcs, crossings, labels) on the implementation's "
+          "dumps; copy-heavy sequences are replayed under ASan. Partial: arcs/createRadius not modelled, planarity proper is "
+          "oracle-checked; four recorded known findings (F2, F3, F4, F6)."),
+    design_ref="DESIGN.md §5 C16",
+    note="Trusted: Coq kernel (+Reals axioms / primitive floats where RA/FA are used); hand-written model tied by harness/h_drawing.cpp op-sequence correspondence; python Fraction oracle.",
+    technique="Coq proof (invariant by induction over all edit sequences, generic in the geometric predicates) + op-sequence correspondence + sanitizer replay")
 PENDING = {}
 def main():
     props = [json.loads(l) for l in open(os.path.join(V, "properties.jsonl"))]
